@@ -293,6 +293,7 @@ func (o *objectGoArrayReflect) deleteIdx(i valueInt, throw bool) bool {
 type goArrayReflectPropIter struct {
 	o          *objectGoArrayReflect
 	idx, limit int
+	lengthDone bool
 }
 
 func (i *goArrayReflectPropIter) next() (propIterItem, iterNextFunc) {
@@ -301,6 +302,10 @@ func (i *goArrayReflectPropIter) next() (propIterItem, iterNextFunc) {
 		i.idx++
 		return propIterItem{name: asciiString(name), enumerable: _ENUM_TRUE}, i.next
 	}
+	if !i.lengthDone {
+		i.lengthDone = true
+		return propIterItem{name: asciiString("length"), enumerable: _ENUM_FALSE}, i.next
+	}
 
 	return i.o.objectGoReflect.iterateStringKeys()()
 }
@@ -308,6 +313,9 @@ func (i *goArrayReflectPropIter) next() (propIterItem, iterNextFunc) {
 func (o *objectGoArrayReflect) stringKeys(all bool, accum []Value) []Value {
 	for i := 0; i < o.fieldsValue.Len(); i++ {
 		accum = append(accum, asciiString(strconv.Itoa(i)))
+	}
+	if all {
+		accum = append(accum, asciiString("length"))
 	}
 
 	return o.objectGoReflect.stringKeys(all, accum)
